@@ -42,6 +42,44 @@ def random_grammar(rng, max_nts=6, max_ts=5, max_rules=14, max_rhs=4):
     return {"nts": nts, "ts": ts, "start": nts[0], "rules": rules}
 
 
+def bracket_grammar(rng):
+    """Seeded grammar from the family where merge-on-the-fly is delicate: a self-recursive nonterminal P (bracket, left or
+    right recursion, optional epsilon) under an optional wrapper S that supplies outside lookaheads; 3-4 terminals whose NAME
+    ORDER (which decides item and symbol order inside the implementation) is drawn at random."""
+    ts = ["$" + n for n in rng.sample(["A", "B", "L", "M", "R", "X", "Y", "Z"], rng.choice([2, 3, 3, 4]))]
+    t = lambda: rng.choice(ts)
+    p_templates = [[], [t()], [t(), "P", t()], [t(), "P"], ["P", t()], [t(), t()], [t(), "P", t(), t()], [t(), "P", "P"], ["Q"], [t(), "Q", t()]]
+    prules = []
+    for rhs in rng.sample(p_templates, rng.choice([2, 2, 3, 3, 4])):
+        if rhs not in prules:
+            prules.append(rhs)
+    rules = []
+    nts = ["P"]
+    wrap = rng.random() < 0.7
+    if wrap:
+        nts = ["S", "P"]
+        srules = [rng.choice([["P", t()], [t(), "P", t()], ["P"], ["P", t(), "P"], [t(), "P"]])]
+        if rng.random() < 0.3:
+            srules.append([t(), "P", t(), t()])
+        rules += [{"lhs": "S", "rhs": r} for r in srules]
+    rules += [{"lhs": "P", "rhs": r} for r in prules]
+    if any("Q" in r["rhs"] for r in rules):
+        nts.append("Q")
+        rules += [{"lhs": "Q", "rhs": r} for r in rng.sample([[], [t()], [t(), "Q"], ["P"]], rng.choice([1, 2]))]
+    if rng.random() < 0.5:       # declaration order of the nonterminals (rule numbering) matters too
+        order = nts[:]
+        rng.shuffle(order)
+        rules = [r for n in order for r in rules if r["lhs"] == n]
+    # drop duplicate right-hand sides of one nonterminal (kiki rejects them as a symbol-sequence clash)
+    seen, uniq = set(), []
+    for r in rules:
+        k = (r["lhs"], tuple(r["rhs"]))
+        if k not in seen:
+            seen.add(k)
+            uniq.append(r)
+    return {"nts": nts, "ts": sorted(ts), "start": nts[0] if not wrap else "S", "rules": uniq}
+
+
 def run_real(cases, want=("grammar", "table", "machine", "rust"), batch=1500):
     """cases: list of dicts with 'src'. Adds 'resp' to each."""
     for lo in range(0, len(cases), batch):
@@ -129,6 +167,16 @@ def build_cases(tier, seed, wd, run):
         G = random_grammar(rng)
         pres = grammar.present(G, rng, payload=None)
         cases.append({"G": G, "pres": pres, "src": grammar.render(G, pres), "origin": "random"})
+    seen = set()
+    for _ in range(2500 if tier == "quick" else 40000):
+        G = bracket_grammar(rng)
+        key = json.dumps(G, sort_keys=True)
+        if key in seen:
+            continue
+        seen.add(key)
+        pres = grammar.present(G, rng)
+        pres["ts"] = list(G["ts"])
+        cases.append({"G": G, "pres": pres, "src": grammar.render(G, pres), "origin": "bracket"})
     return cases, tlc_results
 
 
@@ -299,8 +347,9 @@ def check(prop, tier, seed):
                 run.violation(replay_case(c, "C04: generate neither emitted a parser nor reported a table conflict on a well-formed grammar: %s" % json.dumps(c["other"])[:300], "no-verdict"))
             continue
         run.traces += 1
-        if not j["ok"] and j["why"].startswith(prefix):
-            run.violation(replay_case(c, j["why"], "judge"))
+        mine = [w for w in j.get("whys", []) if w.startswith(prefix)]
+        if mine:
+            run.violation(replay_case(c, mine[0], "judge"))
         if prop == "C11" and c["rec"]["verdict"] == "conflict" and c.get("attached_file_mismatch"):
             run.violation(replay_case(c, "C11: attached grammar is not the validated input grammar: " + c["attached_file_mismatch"], "attached-file"))
         # non-triviality bookkeeping
@@ -393,8 +442,9 @@ def replay(prop, path):
         j = verdicts[0]
         run.traces = 1
         log("judge: %s" % json.dumps(j))
-        if not j["ok"] and j["why"].startswith(prop + ":"):
-            run.violation(replay_case(c, j["why"], "judge"))
+        mine = [w for w in j.get("whys", []) if w.startswith(prop + ":")]
+        if mine:
+            run.violation(replay_case(c, mine[0], "judge"))
         if prop == "C11" and rec["verdict"] == "conflict" and c.get("attached_file_mismatch"):
             run.violation(replay_case(c, "C11: attached grammar is not the validated input grammar", "attached-file"))
     run.sample({"src": c["src"]})
